@@ -56,6 +56,7 @@ type taskView struct {
 	idx     int
 	subs    []sub
 	cancels []callRec
+	unsched []callRec // Schedule(zero): withdraws every pending submission
 	maxd    []callRec
 	runs    []runRec
 }
@@ -96,6 +97,12 @@ func buildView(h *Hist, evs []Ev) *view {
 		switch e.K {
 		case "mark":
 			v.marks[e.Op] = e.Seq
+			if strings.HasPrefix(e.Op, "no-effect:") {
+				v.structure = append(v.structure, finding{"C07:lost:" + strings.TrimPrefix(e.Op, "no-effect:") + ":no-effect", e.C})
+			}
+			if strings.HasPrefix(e.Op, "stuck:") {
+				v.structure = append(v.structure, finding{"C07:" + e.Op, e.C})
+			}
 			if strings.HasPrefix(e.Op, "structure:") {
 				sig := "C07:structure:list-membership:" + strings.TrimPrefix(e.Op, "structure:")
 				if e.Op == "structure:schedule-order" {
@@ -173,6 +180,8 @@ func (v *view) addCall(c Ev, ret uint64) {
 		tv.subs = append(tv.subs, sub{kind: c.Op, call: c.Seq, ret: ret, callT: c.T, at: c.At, client: c.C, in: c.In})
 	case opCancel:
 		tv.cancels = append(tv.cancels, callRec{call: c.Seq, ret: ret, callT: c.T, client: c.C})
+	case opUnsched:
+		tv.unsched = append(tv.unsched, callRec{call: c.Seq, ret: ret, callT: c.T, client: c.C})
 	case opMaxDelay:
 		tv.maxd = append(tv.maxd, callRec{call: c.Seq, ret: ret, callT: c.T, d: c.D - 1, client: c.C})
 	}
@@ -422,6 +431,12 @@ func (v *view) checkT4() []finding {
 				ok = true
 			}
 		}
+		// a Schedule(zero) that may have taken effect after the submission withdrew it
+		for _, u := range tv.unsched {
+			if u.ret > last.call {
+				ok = true
+			}
+		}
 		if ok {
 			continue
 		}
@@ -510,7 +525,7 @@ func (v *view) overdueLegit(tv *taskView, r runRec) bool {
 // Such a task came due as a merely scheduled task: it has to be queued and its start
 // must respect the queue's serialisation.
 func (v *view) schedStartUnexplained(tv *taskView, b int) bool {
-	if len(tv.cancels) > 0 {
+	if len(tv.cancels) > 0 || len(tv.unsched) > 0 {
 		return false
 	}
 	r := tv.runs[b]
@@ -729,6 +744,13 @@ func (v *view) checkConc(timeout time.Duration) (out []finding, inconclusive str
 				ret = v.last + 1
 			}
 			ops = append(ops, porcupine.Operation{ClientId: client(c.client), Input: qIn{kind: opCancel, task: tv.idx}, Call: int64(c.call), Return: int64(ret)})
+		}
+		for _, c := range tv.unsched {
+			ret := c.ret
+			if ret == inf {
+				ret = v.last + 1
+			}
+			ops = append(ops, porcupine.Operation{ClientId: client(c.client), Input: qIn{kind: opUnsched, task: tv.idx}, Call: int64(c.call), Return: int64(ret)})
 		}
 	}
 	var prev *startRec
